@@ -1,23 +1,25 @@
 #!/usr/bin/env python3
 """Archive a confirmed seeded defect under /verif/seeded/<ID>-<mK>/ (patch.diff, demonstration, meta.json).
-usage: keep_seed.py <ID> <mK> <needs> <caught_by> [<missed_by>] [<notes>]"""
+usage: [SEED_ROOT=/tmp/seed2-out KEEP_AS=m3] keep_seed.py <ID> <mK> <needs> <caught_by> [<missed_by>] [<notes>]"""
 import sys, os, shutil, json, glob
 root = os.path.dirname(os.path.dirname(os.path.abspath(__file__)))
 pid, m, needs, caught = sys.argv[1:5]
 missed = sys.argv[5] if len(sys.argv) > 5 else ""
 notes = sys.argv[6] if len(sys.argv) > 6 else ""
-src = '/tmp/seed-out/%s/%s' % (pid, m)
-dst = os.path.join(root, 'seeded', '%s-%s' % (pid, m))
+seed_root = os.environ.get('SEED_ROOT', '/tmp/seed-out')
+src = '%s/%s/%s' % (seed_root, pid, m)
+keep_as = os.environ.get('KEEP_AS', m)
+dst = os.path.join(root, 'seeded', '%s-%s' % (pid, keep_as))
 os.makedirs(dst, exist_ok=True)
 for f in glob.glob(src + '/*'):
     if os.path.isfile(f) and os.path.getsize(f) < 200000:
         shutil.copy(f, dst)
 # shared demo runners the agent wrote next to the mutants
-for f in glob.glob('/tmp/seed-out/%s/*.rs' % pid):
+for f in glob.glob('%s/%s/*.rs' % (seed_root, pid)):
     shutil.copy(f, dst)
 meta = {
     "property": pid,
-    "mutant": m,
+    "mutant": keep_as,
     "breaks": "see notes.md (written by the seeding agent, which had only the property text and a scratch worktree)",
     "needs_to_manifest": needs,
     "confirmed": {
